@@ -547,6 +547,10 @@ func (w *jobWorld) envApply(action string) {
 					}
 				}
 			}
+			// ... or already delivered to the controller's cache (it may legitimately report it at its next sync)
+			if cp := w.cachedPod(sim.ObjKey(p)); cp != nil && cp.Status.Phase == corev1.PodSucceeded {
+				recorded = true
+			}
 			if !recorded {
 				w.mem.Ended[p.Name] = "lost"
 				delete(w.mem.Succeeded, podJobUID(p)+"/"+podHash(p))
